@@ -1,6 +1,6 @@
 (* GoToPy.v - property C16 end to end: an UNCOMPRESSED file written by the Go writer model (Writer.W)
    is read by the Python reader model (Py.v: StreamReader / NonSeekingReader, CRC validation on or
-   off) as exactly the content of the calls.
+   off; SeekingReader.get_summary) as exactly the content of the calls.
 
    The two halves joined here:
      PyReadFacts.v   the Python streaming reader on  magic ++ py_render ps ++ magic  for a typed
@@ -8,12 +8,23 @@
      WriterFactsB/C, ComposeFacts, EndToEnd (E2E_Writer)   the shape and content of the Go writer's trace.
 
    Contents
-     1. generic list facts
-     2. the data section of the trace, typed (data_typed)
-     3. the summary section, typed
-     4. go_trace_typed: the typed description of the whole file and pwf_file
-     5. what the Python reader returns, in terms of the calls
-     6. non-vacuity *)
+     1.   generic list facts
+     2.   typed records; 2b. values wrapped to their wire widths; 2c. the data section of the trace, typed
+          (data_typed); 2d. iter_messages in terms of the calls (msgs_arec); 2e. a StreamReader started
+          with skip_magic inside the file (py_gen_skip, py_sk_get_summary)
+     3.   the run: shape, classes, the typed description of the whole file (g_typed, go_trace_typed_run),
+          what the Python readers return (the go_py theorems)
+     5.   the statements over the hypotheses bundle go_hyps (go_trace_typed and the go_to_python theorems)
+     6.   deciding the hypotheses (go_checks); the example workloads; the hypotheses are needed
+
+   Hypotheses that input bounds do not imply, and why they are there (section 6, the gz examples):
+     call_utf8      a string that is not valid UTF-8 makes Python raise UnicodeDecodeError;
+     o_skip_magic   without the leading magic Python raises InvalidMagic;
+     ids_consistent Python resolves a message through the latest registration of its channel id, go_msgs
+                    (like the writer's tables) through the first.
+   The typed description carries time stamps and counters reduced to their wire widths (2b): the writer
+   theorems (WriterFactsC.chunk_ok) describe a chunk through an existentially quantified record list, which
+   fixes these values only through their encodings. *)
 From Coq Require Import List NArith ZArith Bool Lia ZifyN ZifyNat ZifyBool Permutation Sorted PeanoNat.
 From Coq.Strings Require Import Byte.
 From RecordUpdate Require Import RecordSet.
@@ -795,6 +806,147 @@ Qed.
 End Msgs.
 
 (* ====================================================================================== *)
+(** * 2e. a StreamReader started with skip_magic=True inside the file (SeekingReader.get_summary) *)
+
+Definition sr_skipped (r : sr) : sr :=
+  {| sr_s := sr_s r; sr_skip := true; sr_emit := sr_emit r; sr_validate := sr_validate r; sr_limit := sr_limit r;
+     sr_phase := sr_phase r; sr_pending := sr_pending r |}.
+
+Definition lift_skipped (x : pres (option prec * sr)) : pres (option prec * sr) :=
+  match x with POk (y, r') => POk (y, sr_skipped r') | PRaise e => PRaise e | PFuel => PFuel end.
+
+(* without CRC validation the skip flag is looked at only at the start *)
+Lemma sr_iter_skipped r : sr_validate r = false -> sr_iter (sr_skipped r) = sr_iter r.
+Proof.
+  intro H. unfold sr_iter, sr_skipped. cbn [sr_s sr_skip sr_emit sr_validate sr_limit]. rewrite H. reflexivity.
+Qed.
+
+Lemma sr_next_skipped fuel : forall r, sr_validate r = false -> sr_phase r <> PhStart ->
+  sr_next fuel (sr_skipped r) = lift_skipped (sr_next fuel r).
+Proof.
+  induction fuel as [|fuel IH]; intros r HV HP; [reflexivity|]. cbn [sr_next].
+  change (sr_pending (sr_skipped r)) with (sr_pending r). change (sr_phase (sr_skipped r)) with (sr_phase r).
+  destruct (sr_pending r) as [|x rest]; [|reflexivity].
+  destruct (sr_phase r) eqn:EP; [contradiction| | |reflexivity].
+  - rewrite (sr_iter_skipped r HV). destruct (sr_iter r) as [[[ys isf] s']| |]; cbn [pbind lift_skipped]; try reflexivity.
+    change (sr_with (sr_skipped r) s' (if isf then PhFooter else PhLoop) ys)
+      with (sr_skipped (sr_with r s' (if isf then PhFooter else PhLoop) ys)).
+    apply IH; [exact HV|]. cbn [sr_with sr_phase]. destruct isf; discriminate.
+  - change (sr_s (sr_skipped r)) with (sr_s r). destruct (read_magic (sr_s r)) as [s'| |]; reflexivity.
+Qed.
+
+Lemma sr_next_phase fuel : forall r x r', sr_phase r <> PhStart -> sr_next fuel r = POk (x, r') ->
+  sr_phase r' <> PhStart /\ sr_validate r' = sr_validate r.
+Proof.
+  induction fuel as [|fuel IH]; intros r x r' HP H; [discriminate H|]. cbn [sr_next] in H.
+  destruct (sr_pending r) as [|y rest].
+  - destruct (sr_phase r) eqn:EP; [contradiction| | |].
+    + destruct (sr_iter r) as [[[ys isf] s']| |]; cbn [pbind] in H; try discriminate H.
+      apply IH in H; [exact H|]. cbn [sr_with sr_phase]. destruct isf; discriminate.
+    + destruct (read_magic (sr_s r)) as [s'| |]; cbn [pbind] in H; try discriminate H.
+      injection H as _ <-. split; [discriminate|reflexivity].
+    + injection H as _ <-. split; [rewrite EP; discriminate|reflexivity].
+  - injection H as _ <-. split; [exact HP|reflexivity].
+Qed.
+
+Lemma gen_yields_skipped r xs : gen_yields r xs -> sr_validate r = false -> sr_phase r <> PhStart ->
+  gen_yields (sr_skipped r) xs.
+Proof.
+  induction 1 as [r r' E|r x r' xs E G IH]; intros HV HP.
+  - eapply gy_stop. unfold sr_pull in *. change (sr_fuel (sr_skipped r)) with (sr_fuel r).
+    rewrite (sr_next_skipped _ r HV HP), E. reflexivity.
+  - destruct (sr_next_phase _ _ _ _ HP E) as [HP' HV'].
+    eapply gy_step; [|apply IH; [rewrite HV'; exact HV|exact HP']].
+    unfold sr_pull in *. change (sr_fuel (sr_skipped r)) with (sr_fuel r).
+    rewrite (sr_next_skipped _ r HV HP), E. reflexivity.
+Qed.
+
+(* the generator started (skip_magic=True, no validation) at the first byte of a record of the file *)
+Theorem py_gen_skip body f :
+  Forall (pwf_pitem false false) (body ++ [PIRec (PFooter f)]) ->
+  Forall (fun p => is_footer_item p = false) body ->
+  gen_yields (new_sr (py_render (body ++ [PIRec (PFooter f)]) ++ magic) true false false limit_4g)
+             (py_expected (body ++ [PIRec (PFooter f)])).
+Proof.
+  intros W NF. set (b := py_render (body ++ [PIRec (PFooter f)]) ++ magic).
+  set (s0 := mem_stream b false).
+  assert (HD : dataend_ok false [] (body ++ [PIRec (PFooter f)])) by (intro V; discriminate V).
+  assert (HF : (length body + 2 <= length b + 3)%nat).
+  { unfold b. rewrite app_length. pose proof (py_render_length (body ++ [PIRec (PFooter f)])) as L.
+    rewrite app_length in L. cbn [length] in L. lia. }
+  pose proof (sr_next_items false false s0 f (fun V => False_ind _ (Bool.diff_false_true V)) body [] (length b + 3)%nat W NF HD HF) as G.
+  change (adv s0 [] (py_render (body ++ [PIRec (PFooter f)]) ++ magic)) with (adv s0 [] (ps_buf s0)) in G.
+  rewrite adv_nil in G.
+  apply gen_yields_pull. unfold sr_pull.
+  replace (sr_fuel (new_sr b true false false limit_4g)) with (S (length b + 3))
+    by (unfold sr_fuel; cbn [new_sr sr_s mem_stream ps_buf]; lia).
+  cbn [sr_next new_sr sr_pending sr_phase sr_skip sr_s].
+  change (sr_with (new_sr b true false false limit_4g) (mem_stream b false) PhLoop [])
+    with (sr_skipped (mk_sr false false s0 PhLoop [])).
+  rewrite sr_next_skipped by (reflexivity || discriminate).
+  unfold py_expected. destruct (py_expected_gen false (body ++ [PIRec (PFooter f)])) as [|x xs]; cbn [gen_body] in *.
+  - destruct G as [r' E]. rewrite E. eexists. reflexivity.
+  - destruct G as (r' & E & G'). rewrite E. eexists. split; [reflexivity|].
+    assert (HP0 : sr_phase (mk_sr false false s0 PhLoop []) <> PhStart) by discriminate.
+    destruct (sr_next_phase _ _ _ _ HP0 E) as [HP' HV'].
+    apply gen_yields_skipped; [exact G'|rewrite HV'; reflexivity|exact HP'].
+Qed.
+
+Lemma pdrop_app_exact a b : pdrop (blen a) (a ++ b) = b.
+Proof.
+  unfold pdrop. rewrite PyReadFacts.blen_app, N.min_l by lia. unfold blen. rewrite Nat2N.id. apply skipn_app_exact.
+Qed.
+
+(* SeekingReader.get_summary on a typed file whose summary section starts at the offset the footer gives *)
+Theorem py_sk_get_summary (dataps : list pitem) (srs : list prec) (ft : footer) :
+  let ps := dataps ++ map PIRec srs ++ [PIRec (PFooter ft)] in
+  Forall (pwf_pitem false false) (map PIRec srs ++ [PIRec (PFooter ft)]) ->
+  Forall (fun p => is_footer_item p = false) (map PIRec srs) ->
+  (f_summary_start ft = 0 \/ f_summary_start ft = blen (magic ++ py_render dataps)) ->
+  blen (the_file ps) < two63 ->
+  sk_get_summary (the_file ps)
+  = POk (if f_summary_start ft =? 0 then None else Some (fold_left summary_add (map py_norm srs) empty_summary)).
+Proof.
+  intros ps W NF Hss Hsz.
+  assert (EF : the_file ps = (magic ++ py_render dataps) ++ py_render (map PIRec srs ++ [PIRec (PFooter ft)]) ++ magic).
+  { unfold the_file, ps, py_render. rewrite !map_app, !concat_app, <- !app_assoc. reflexivity. }
+  assert (EF2 : the_file ps = (magic ++ py_render dataps ++ py_render (map PIRec srs))
+                              ++ py_render ([] ++ [PIRec (PFooter ft)]) ++ magic).
+  { rewrite EF. unfold py_render. rewrite !map_app, !concat_app, <- !app_assoc. reflexivity. }
+  unfold sk_get_summary, sr_at.
+  assert (E1 : blen (the_file ps) - (footer_size + 8) = blen (magic ++ py_render dataps ++ py_render (map PIRec srs))).
+  { rewrite EF2 at 1. rewrite PyReadFacts.blen_app. cbn [app]. unfold py_render at 3. cbn [map concat pitem_bytes rec_op rec_body].
+    rewrite app_nil_r, (PyReadFacts.blen_app (frame _ _)), blen_frame. unfold enc_footer.
+    rewrite !PyReadFacts.blen_app, !PyReadFacts.blen_u64, PyReadFacts.blen_u32. change (blen magic) with 8. unfold footer_size. lia. }
+  rewrite E1. rewrite EF2 at 1. rewrite pdrop_app_exact.
+  assert (W0 : Forall (pwf_pitem false false) ([] ++ [PIRec (PFooter ft)])).
+  { apply Forall_app in W. destruct W as [_ W]. exact W. }
+  pose proof (py_gen_skip [] ft W0 (Forall_nil _)) as G0.
+  change (py_expected ([] ++ [PIRec (PFooter ft)])) with [PFooter ft] in G0.
+  apply gen_yields_cons in G0. destruct G0 as (r' & E0 & _). rewrite E0. cbn [pbind].
+  destruct (N.eqb_spec (f_summary_start ft) 0) as [Z|NZ]; [reflexivity|].
+  destruct Hss as [Z|Hss]; [contradiction|].
+  assert (Hle : f_summary_start ft <= blen (the_file ps)).
+  { rewrite Hss, EF, !PyReadFacts.blen_app. lia. }
+  replace (max_ssize <? Z.of_N (f_summary_start ft))%Z with false
+    by (symmetry; apply Z.ltb_ge; unfold max_ssize, two63 in *; lia).
+  rewrite Hss. rewrite EF at 2. rewrite pdrop_app_exact.
+  pose proof (py_gen_skip (map PIRec srs) ft W NF) as G.
+  unfold py_expected in G. rewrite py_expected_app in G. fold py_expected in G.
+  change (py_expected_gen false [PIRec (PFooter ft)]) with [PFooter ft] in G.
+  assert (EX : py_expected (map PIRec srs) = map py_norm srs).
+  { unfold py_expected, py_expected_gen. clear. induction srs as [|r l IH]; [reflexivity|].
+    cbn [map flat_map pitem_recs app]. rewrite IH. reflexivity. }
+  rewrite EX in G.
+  rewrite (read_summary_gen (map py_norm srs) _ ft [] empty_summary _ G).
+  - destruct (N.eqb_spec (f_summary_start ft) 0); [contradiction|reflexivity].
+  - rewrite <- EX. apply expected_no_footer. exact NF.
+  - unfold all_fuel. rewrite EF, !app_length.
+    pose proof (py_expected_length false (map PIRec srs ++ [PIRec (PFooter ft)])) as L.
+    unfold py_expected in EX. rewrite py_expected_app, EX, app_length in L. cbn [length] in L. lia.
+Qed.
+
+(* ====================================================================================== *)
 (** * 3. the run *)
 
 Lemma eff_flags o :
@@ -908,6 +1060,207 @@ Proof.
     f_equal. apply HC; assumption.
   - pose proof (find_none _ _ E sc (proj2 (in_schema_calls sc cs) Hin)) as X. cbv beta in X. rewrite N.eqb_refl in X. discriminate.
 Qed.
+
+(* ---------- the Summary object Python builds from the records ---------- *)
+Definition sel_stat (r : prec) : list statistics := match r with PStatistics x => [x] | _ => [] end.
+Definition sel_ci (r : prec) : list chunkindex := match r with PChunkIndex x => [x] | _ => [] end.
+Definition sel_ai (r : prec) : list attindex := match r with PAttIndex x => [x] | _ => [] end.
+Definition sel_mx (r : prec) : list mdindex := match r with PMdIndex x => [x] | _ => [] end.
+Definition lastopt {A} (l : list A) (d : option A) : option A := fold_left (fun _ x => Some x) l d.
+
+Lemma lastopt_app {A} (a b : list A) d : lastopt (a ++ b) d = lastopt b (lastopt a d).
+Proof. unfold lastopt. apply fold_left_app. Qed.
+
+Lemma su_fold_stats xs : forall su, su_stats (fold_left summary_add xs su) = lastopt (flat_map sel_stat xs) (su_stats su).
+Proof.
+  induction xs as [|r xs IH]; intro su; [reflexivity|]. cbn [fold_left flat_map]. rewrite IH, lastopt_app.
+  destruct r; reflexivity.
+Qed.
+Lemma su_fold_chunks xs : forall su, su_chunks (fold_left summary_add xs su) = su_chunks su ++ flat_map sel_ci xs.
+Proof.
+  induction xs as [|r xs IH]; intro su; cbn [fold_left flat_map]; [rewrite app_nil_r; reflexivity|]. rewrite IH.
+  destruct r; cbn [summary_add su_chunks sel_ci app]; rewrite <- ?app_assoc; reflexivity.
+Qed.
+Lemma su_fold_atts xs : forall su, su_atts (fold_left summary_add xs su) = su_atts su ++ flat_map sel_ai xs.
+Proof.
+  induction xs as [|r xs IH]; intro su; cbn [fold_left flat_map]; [rewrite app_nil_r; reflexivity|]. rewrite IH.
+  destruct r; cbn [summary_add su_atts sel_ai app]; rewrite <- ?app_assoc; reflexivity.
+Qed.
+Lemma su_fold_mds xs : forall su, su_mds (fold_left summary_add xs su) = su_mds su ++ flat_map sel_mx xs.
+Proof.
+  induction xs as [|r xs IH]; intro su; cbn [fold_left flat_map]; [rewrite app_nil_r; reflexivity|]. rewrite IH.
+  destruct r; cbn [summary_add su_mds sel_mx app]; rewrite <- ?app_assoc; reflexivity.
+Qed.
+
+Lemma flat_map_map_nil {A B C} (sel : B -> list C) (g : A -> B) l : (forall x, sel (g x) = []) -> flat_map sel (map g l) = [].
+Proof. intro H. induction l as [|x l IH]; [reflexivity|]. cbn [map flat_map]. rewrite H, IH. reflexivity. Qed.
+Lemma flat_map_map_one {A B C} (sel : B -> list C) (g : A -> B) (h : A -> C) l :
+  (forall x, sel (g x) = [h x]) -> flat_map sel (map g l) = map h l.
+Proof. intro H. induction l as [|x l IH]; [reflexivity|]. cbn [map flat_map]. rewrite H, IH. reflexivity. Qed.
+
+Lemma data_rec_sel {C} (sel : prec -> list C) xs :
+  (forall r, data_rec r -> sel r = []) -> Forall data_rec xs -> flat_map sel xs = [].
+Proof. intros H F. induction F as [|r xs Hr _ IH]; [reflexivity|]. cbn [flat_map]. rewrite (H r Hr), IH. reflexivity. Qed.
+
+Lemma sum_recs_sel sch chs sts cis ais mxs offs :
+  flat_map sel_stat (map py_norm (sum_recs sch chs sts cis ais mxs offs)) = map (fun st => py_statistics (st_wrap st)) sts /\
+  flat_map sel_ci (map py_norm (sum_recs sch chs sts cis ais mxs offs)) = map (fun ci => py_chunkindex (ci_wrap ci)) cis /\
+  flat_map sel_ai (map py_norm (sum_recs sch chs sts cis ais mxs offs)) = ais /\
+  flat_map sel_mx (map py_norm (sum_recs sch chs sts cis ais mxs offs)) = mxs.
+Proof.
+  unfold sum_recs. rewrite !map_app, !map_map, !flat_map_app.
+  repeat split.
+  - rewrite (flat_map_map_nil sel_stat (fun x => py_norm (PSchema x))), (flat_map_map_nil sel_stat (fun x => py_norm (PChannel x))),
+      (flat_map_map_one sel_stat _ (fun st => py_statistics (st_wrap st))),
+      (flat_map_map_nil sel_stat (fun x => py_norm (PChunkIndex (ci_wrap x)))), (flat_map_map_nil sel_stat (fun x => py_norm (PAttIndex x))),
+      (flat_map_map_nil sel_stat (fun x => py_norm (PMdIndex x))), (flat_map_map_nil sel_stat (fun x => py_norm (PSumOffset x)))
+      by reflexivity. cbn [app]. rewrite app_nil_r. reflexivity.
+  - rewrite (flat_map_map_nil sel_ci (fun x => py_norm (PSchema x))), (flat_map_map_nil sel_ci (fun x => py_norm (PChannel x))),
+      (flat_map_map_nil sel_ci (fun st => py_norm (PStatistics (st_wrap st)))),
+      (flat_map_map_one sel_ci _ (fun ci => py_chunkindex (ci_wrap ci))), (flat_map_map_nil sel_ci (fun x => py_norm (PAttIndex x))),
+      (flat_map_map_nil sel_ci (fun x => py_norm (PMdIndex x))), (flat_map_map_nil sel_ci (fun x => py_norm (PSumOffset x)))
+      by reflexivity. cbn [app]. rewrite app_nil_r. reflexivity.
+  - rewrite (flat_map_map_nil sel_ai (fun x => py_norm (PSchema x))), (flat_map_map_nil sel_ai (fun x => py_norm (PChannel x))),
+      (flat_map_map_nil sel_ai (fun st => py_norm (PStatistics (st_wrap st)))),
+      (flat_map_map_nil sel_ai (fun x => py_norm (PChunkIndex (ci_wrap x)))), (flat_map_map_one sel_ai _ (fun x => x)),
+      (flat_map_map_nil sel_ai (fun x => py_norm (PMdIndex x))), (flat_map_map_nil sel_ai (fun x => py_norm (PSumOffset x)))
+      by reflexivity. cbn [app]. rewrite app_nil_r, map_id. reflexivity.
+  - rewrite (flat_map_map_nil sel_mx (fun x => py_norm (PSchema x))), (flat_map_map_nil sel_mx (fun x => py_norm (PChannel x))),
+      (flat_map_map_nil sel_mx (fun st => py_norm (PStatistics (st_wrap st)))),
+      (flat_map_map_nil sel_mx (fun x => py_norm (PChunkIndex (ci_wrap x)))), (flat_map_map_nil sel_mx (fun x => py_norm (PAttIndex x))),
+      (flat_map_map_one sel_mx _ (fun x => x)), (flat_map_map_nil sel_mx (fun x => py_norm (PSumOffset x)))
+      by reflexivity. cbn [app]. rewrite app_nil_r, map_id. reflexivity.
+Qed.
+
+(* ---------- the schema and channel tables of the Summary object ---------- *)
+Definition sch_step (acc : list (N * schema)) (r : prec) : list (N * schema) :=
+  match r with PSchema x => pn_set (s_id x) x acc | _ => acc end.
+Definition chn_step (acc : list (N * channel)) (r : prec) : list (N * channel) :=
+  match r with PChannel x => pn_set (c_id x) x acc | _ => acc end.
+
+Lemma su_fold_schemas xs : forall su, su_schemas (fold_left summary_add xs su) = fold_left sch_step xs (su_schemas su).
+Proof. induction xs as [|r xs IH]; intro su; [reflexivity|]. cbn [fold_left]. rewrite IH. destruct r; reflexivity. Qed.
+Lemma su_fold_channels xs : forall su, su_channels (fold_left summary_add xs su) = fold_left chn_step xs (su_channels su).
+Proof. induction xs as [|r xs IH]; intro su; [reflexivity|]. cbn [fold_left]. rewrite IH. destruct r; reflexivity. Qed.
+
+Lemma fold_scm {B} (f : B -> prec -> B) xs : (forall acc r, scm r = false -> f acc r = acc) ->
+  forall acc, fold_left f (filter scm xs) acc = fold_left f xs acc.
+Proof.
+  intro H. induction xs as [|r xs IH]; intro acc; [reflexivity|]. cbn [filter fold_left].
+  destruct (scm r) eqn:E; cbn [fold_left]; [apply IH|]. rewrite (H acc r E). apply IH.
+Qed.
+
+(* Python's dict assignment against the writer's first-wins table, when equal keys mean equal values *)
+Lemma pn_set_fw {A B} (key : A -> N) (h : A -> B) t x :
+  (forall p, In p t -> fst p = key (snd p)) -> (forall p, In p t -> key (snd p) = key x -> snd p = x) ->
+  pn_set (key x) (h x) (map (fun p => (fst p, h (snd p))) t) = map (fun p => (fst p, h (snd p))) (fw_add key t x).
+Proof.
+  induction t as [|p t IH]; intros H1 H2; [reflexivity|].
+  cbn [map pn_set fst]. unfold fw_add. cbn [assoc_get].
+  destruct (N.eqb_spec (fst p) (key x)) as [E|E].
+  - assert (Ex : snd p = x) by (apply H2; [left; reflexivity|rewrite <- E; symmetry; apply H1; left; reflexivity]).
+    cbn [map]. rewrite <- E, <- Ex. reflexivity.
+  - assert (IH' : pn_set (key x) (h x) (map (fun p => (fst p, h (snd p))) t) = map (fun p => (fst p, h (snd p))) (fw_add key t x)).
+    { apply IH; intros q Hq; [apply H1|apply H2]; right; exact Hq. }
+    rewrite IH'. unfold fw_add. destruct (assoc_get (key x) t); reflexivity.
+Qed.
+
+Lemma map_pair_id {A} (t : list (N * A)) : map (fun p => (fst p, snd p)) t = t.
+Proof. induction t as [|[k v] t IH]; [reflexivity|]. cbn [map fst snd]. rewrite IH. reflexivity. Qed.
+
+Section Tables.
+Context {A B : Type}.
+Variable key : A -> N.
+Variable h : A -> B.
+Variable good : A -> Prop.
+Hypothesis good_inj : forall x y, good x -> good y -> key x = key y -> x = y.
+Let g (p : N * A) : N * B := (fst p, h (snd p)).
+Let inv (t : list (N * A)) : Prop := forall p, In p t -> fst p = key (snd p) /\ good (snd p).
+
+Lemma inv_fw_add t x : inv t -> good x -> inv (fw_add key t x).
+Proof.
+  intros I G. unfold fw_add. destruct (assoc_get (key x) t); [exact I|].
+  intros p Hp. apply in_app_or in Hp. destruct Hp as [Hp|[<-|[]]]; [apply I; exact Hp|]. split; [reflexivity|exact G].
+Qed.
+
+Lemma pn_fold_fw l : forall t, inv t -> Forall good l ->
+  fold_left (fun acc x => pn_set (key x) (h x) acc) l (map g t) = map g (fold_left (fw_add key) l t) /\
+  inv (fold_left (fw_add key) l t).
+Proof.
+  induction l as [|x l IH]; intros t I G; [split; [reflexivity|exact I]|].
+  inversion G as [|? ? Gx G']; subst. cbn [fold_left].
+  unfold g. rewrite (pn_set_fw key h t x).
+  - apply IH; [apply inv_fw_add; assumption|exact G'].
+  - intros p Hp. apply I. exact Hp.
+  - intros p Hp E. apply good_inj; [apply I; exact Hp|exact Gx|exact E].
+Qed.
+
+(* a value already in the table under its key *)
+Lemma pn_set_present t x : inv t -> good x -> In x (map snd t) ->
+  pn_set (key x) (h x) (map g t) = map g t.
+Proof.
+  intros I G Hin. unfold g. rewrite (pn_set_fw key h t x).
+  - unfold fw_add. destruct (assoc_get (key x) t) eqn:E; [reflexivity|]. exfalso.
+    refine (keyed_get key t x _ Hin E). apply Forall_forall. intros p Hp. apply I. exact Hp.
+  - intros p Hp. apply I. exact Hp.
+  - intros p Hp E. apply good_inj; [apply I; exact Hp|exact G|exact E].
+Qed.
+
+Lemma pn_fold_present l t : inv t -> Forall good l -> incl l (map snd t) ->
+  fold_left (fun acc x => pn_set (key x) (h x) acc) l (map g t) = map g t.
+Proof.
+  intros I. induction l as [|x l IH]; intros G HI; [reflexivity|]. inversion G as [|? ? Gx G']; subst.
+  cbn [fold_left]. rewrite pn_set_present; [|exact I|exact Gx|apply HI; left; reflexivity].
+  apply IH; [exact G'|]. intros y Hy. apply HI. right. exact Hy.
+Qed.
+End Tables.
+
+(* the two folds over the typed records of a file *)
+Lemma sch_fold_arecs L : forall acc,
+  fold_left sch_step (map arec_out L) acc
+  = fold_left (fun acc x => pn_set (s_id x) x acc) (flat_map (fun a => match a with ASchema x => [x] | _ => [] end) L) acc.
+Proof.
+  induction L as [|a L IH]; intro acc; [reflexivity|]. cbn [map fold_left flat_map]. rewrite fold_left_app, IH.
+  destruct a; reflexivity.
+Qed.
+Lemma chn_fold_arecs L : forall acc,
+  fold_left chn_step (map arec_out L) acc
+  = fold_left (fun acc x => pn_set (c_id x) (py_channel x) acc)
+              (flat_map (fun a => match a with AChannel x => [x] | _ => [] end) L) acc.
+Proof.
+  induction L as [|a L IH]; intro acc; [reflexivity|]. cbn [map fold_left flat_map]. rewrite fold_left_app, IH.
+  destruct a; reflexivity.
+Qed.
+
+Lemma arec_schemas cs sch chs :
+  flat_map (fun a => match a with ASchema x => [x] | _ => [] end) (auto_recs cs ++ map ASchema sch ++ map AChannel chs)
+  = schema_calls cs ++ sch.
+Proof.
+  rewrite !flat_map_app. f_equal.
+  - unfold auto_recs, schema_calls. induction cs as [|c cs IH]; [reflexivity|]. cbn [flat_map]. rewrite flat_map_app, IH.
+    destruct c; reflexivity.
+  - replace (flat_map _ (map AChannel chs)) with (@nil schema) by (induction chs; [reflexivity|assumption]).
+    rewrite app_nil_r. induction sch as [|x l IH]; [reflexivity|]. cbn [map flat_map app]. rewrite IH. reflexivity.
+Qed.
+Lemma arec_channels cs sch chs :
+  flat_map (fun a => match a with AChannel x => [x] | _ => [] end) (auto_recs cs ++ map ASchema sch ++ map AChannel chs)
+  = channel_calls cs ++ chs.
+Proof.
+  rewrite !flat_map_app. f_equal.
+  - unfold auto_recs, channel_calls. induction cs as [|c cs IH]; [reflexivity|]. cbn [flat_map]. rewrite flat_map_app, IH.
+    destruct c; reflexivity.
+  - replace (flat_map _ (map ASchema sch)) with (@nil channel) by (induction sch; [reflexivity|assumption]).
+    cbn [app]. induction chs as [|x l IH]; [reflexivity|]. cbn [map flat_map app]. rewrite IH. reflexivity.
+Qed.
+
+(* the summary records of a final writer state *)
+Definition state_sum_recs (eo : wopts) (s : wstate) (offs : list sumoffset) : list prec :=
+  sum_recs (if o_skip_rsh eo then [] else map snd (w_schemas s))
+           (if o_skip_rch eo then [] else map snd (w_channels s))
+           (if o_skip_stats eo then [] else [stats_record s])
+           (if o_skip_ci eo then [] else w_chunk_indexes s)
+           (if o_skip_ai eo then [] else w_att_indexes s)
+           (if o_skip_mdi eo then [] else w_md_indexes s) offs.
 
 Section Run.
 Variable o : wopts.
@@ -1179,7 +1532,9 @@ Theorem g_typed : exists dps c1,
   file_mds dps = metadata_of cs /\
   Forall data_rec (py_expected dps) /\
   Forall sum_rec_ok srs /\
-  (f_summary_start ft = 0 <-> sum_recs sch' chs' sts' cis' ais' mxs' [] = []).
+  (f_summary_start ft = 0 <-> sum_recs sch' chs' sts' cis' ais' mxs' [] = []) /\
+  (f_summary_start ft = 0 \/
+   f_summary_start ft = blen (magic ++ py_render (PIRec (PHeader hdr) :: dps ++ [PIRec (PDataEnd {| de_crc := c1 |})]))).
 Proof.
   destruct g_data_typed as (dps & P1 & P2 & P3 & P4 & P5 & P6 & P7 & P8 & P9 & P10).
   destruct g_dataend as (c1 & Ede & Ec1).
@@ -1191,7 +1546,14 @@ Proof.
   { unfold go_ps. cbn [map]. rewrite !map_app. cbn [map]. rewrite !map_app, P1, g_sum_bytes, Ede, !map_app. reflexivity. }
   assert (EH : render (pre ++ flatten D) = magic ++ py_render (PIRec (PHeader hdr) :: dps)).
   { rewrite g_pre. unfold render, py_render. cbn [map app concat]. rewrite P1. reflexivity. }
-  split; [|split; [|split; [|split; [|repeat split; try assumption; apply g_ss]]]].
+  split; [|split; [|split; [|split; [|repeat split; try assumption; try apply g_ss]]]].
+  5:{ destruct HS as (_ & _ & _ & Hss0 & _). cbn [ft f_summary_start].
+      assert (Hd : ss = 0 \/ ss = offset_of data).
+      { assert (Hss1 : ss = match gs with [] => 0 | _ :: _ => offset_of data end) by exact Hss0.
+        revert Hss1. generalize gs. intros g Hg. destruct g; [left|right]; exact Hg. }
+      destruct Hd as [Hd|Hd]; [left; exact Hd|right]. rewrite Hd. unfold data, offset_of. f_equal.
+      rewrite g_pre, Ede. unfold rendered, py_render. cbn [map app concat]. rewrite !map_app, !concat_app, P1.
+      reflexivity. }
   - rewrite g_file, g_tr_mid. unfold the_file, py_render. rewrite EB. unfold render.
     cbn [map concat]. rewrite map_app, concat_app. cbn [map concat render_item]. rewrite app_nil_r. reflexivity.
   - rewrite EB, g_tr_mid. cbn [tl]. rewrite removelast_last. reflexivity.
@@ -1226,13 +1588,7 @@ Qed.
 End WithShape.
 
 (* ---------- 4. the statement without the shape parameters ---------- *)
-Definition run_sum_recs (offs : list sumoffset) : list prec :=
-  sum_recs (if o_skip_rsh eo then [] else map snd (w_schemas s))
-           (if o_skip_rch eo then [] else map snd (w_channels s))
-           (if o_skip_stats eo then [] else [stats_record s])
-           (if o_skip_ci eo then [] else w_chunk_indexes s)
-           (if o_skip_ai eo then [] else w_att_indexes s)
-           (if o_skip_mdi eo then [] else w_md_indexes s) offs.
+Definition run_sum_recs (offs : list sumoffset) : list prec := state_sum_recs eo s offs.
 
 Theorem go_trace_typed_run : exists dps c1 offs ft,
   let ps := go_ps hdr dps c1 (run_sum_recs offs) ft in
@@ -1247,7 +1603,9 @@ Theorem go_trace_typed_run : exists dps c1 offs ft,
   file_mds dps = metadata_of cs /\
   Forall data_rec (py_expected dps) /\
   Forall sum_rec_ok (run_sum_recs offs) /\
-  (f_summary_start ft = 0 <-> run_sum_recs [] = []).
+  (f_summary_start ft = 0 <-> run_sum_recs [] = []) /\
+  (f_summary_start ft = 0 \/
+   f_summary_start ft = blen (magic ++ py_render (PIRec (PHeader hdr) :: dps ++ [PIRec (PDataEnd {| de_crc := c1 |})]))).
 Proof.
   destruct (run_shape o lib compress hd cs Hwf Hnh Hok) as (D & de & ss & sos & crc & HS).
   destruct (g_typed D de ss sos crc HS) as (dps & c1 & H). cbv zeta in H.
@@ -1279,7 +1637,7 @@ Theorem go_py_attachments v :
 Proof.
   destruct go_trace_typed_run as (dps & c1 & offs & ft & H). cbv zeta in H.
   destruct H as (E & _ & W & _ & _ & _ & _ & HA & _).
-  rewrite E, (py_ns_iter_attachments v _ (W v)). unfold run_sum_recs. rewrite go_ps_atts by apply sum_recs_plain.
+  rewrite E, (py_ns_iter_attachments v _ (W v)). unfold run_sum_recs, state_sum_recs. rewrite go_ps_atts by apply sum_recs_plain.
   rewrite HA, map_map. reflexivity.
 Qed.
 
@@ -1290,7 +1648,7 @@ Theorem go_py_metadata v :
 Proof.
   destruct go_trace_typed_run as (dps & c1 & offs & ft & H). cbv zeta in H.
   destruct H as (E & _ & W & _ & _ & _ & _ & _ & HM & _).
-  rewrite E, (py_ns_iter_metadata v _ (W v)). unfold run_sum_recs. rewrite go_ps_mds by apply sum_recs_plain.
+  rewrite E, (py_ns_iter_metadata v _ (W v)). unfold run_sum_recs, state_sum_recs. rewrite go_ps_mds by apply sum_recs_plain.
   rewrite HM. reflexivity.
 Qed.
 
@@ -1305,7 +1663,7 @@ Lemma go_scm_expected dps c1 offs ft :
   filter scm (py_expected (go_ps hdr dps c1 (run_sum_recs offs) ft)) = map arec_out L_all.
 Proof.
   intro HD. rewrite go_ps_expected. cbn [filter scm]. rewrite filter_app. cbn [filter scm]. rewrite filter_app.
-  cbn [filter scm]. rewrite app_nil_r, HD. unfold run_sum_recs. rewrite sum_recs_scm. unfold L_all. rewrite !map_app. reflexivity.
+  cbn [filter scm]. rewrite app_nil_r, HD. unfold run_sum_recs, state_sum_recs. rewrite sum_recs_scm. unfold L_all. rewrite !map_app. reflexivity.
 Qed.
 
 Lemma go_msgs_spec flt :
@@ -1350,4 +1708,581 @@ Proof.
   - rewrite <- (refs_ok_scm _ []). cbn [filter]. rewrite ES. exact R2.
 Qed.
 
+(* ---------- get_summary ---------- *)
+Lemma go_summary_fold v : exists dps c1 offs,
+  let xs := PHeader hdr :: py_expected dps ++ PDataEnd {| de_crc := c1 |} :: map py_norm (run_sum_recs offs) in
+  ns_get_summary F v
+    = POk (match run_sum_recs [] with [] => None | _ => Some (fold_left summary_add xs empty_summary) end) /\
+  Forall data_rec (py_expected dps) /\
+  filter scm (py_expected dps) = map arec_out (auto_recs cs).
+Proof.
+  destruct go_trace_typed_run as (dps & c1 & offs & ft & H). cbv zeta in H.
+  destruct H as (E & _ & W & _ & _ & P3 & HD & _ & _ & PD & HSok & Hss & Hst).
+  set (body := PIRec (PHeader hdr) :: dps ++ PIRec (PDataEnd {| de_crc := c1 |}) :: map PIRec (run_sum_recs offs)).
+  assert (Eps : go_ps hdr dps c1 (run_sum_recs offs) ft = body ++ [PIRec (PFooter ft)]).
+  { unfold go_ps, body. cbn [app]. rewrite <- app_assoc. reflexivity. }
+  assert (NF : Forall (fun p => is_footer_item p = false) body).
+  { unfold body. constructor; [reflexivity|]. apply Forall_app. split.
+    - eapply Forall_impl; [|exact P3]. intros p [Hp _]. exact Hp.
+    - constructor; [reflexivity|]. apply Forall_map. eapply Forall_impl; [|exact HSok]. intros r (_ & _ & _ & R4 & _). exact R4. }
+  pose proof (W v) as Wv. rewrite Eps in Wv.
+  pose proof (py_ns_get_summary v body ft Wv NF) as G. rewrite <- Eps, <- E in G.
+  assert (EX : py_expected body = PHeader hdr :: py_expected dps ++ PDataEnd {| de_crc := c1 |} :: map py_norm (run_sum_recs offs)).
+  { unfold body, py_expected, py_expected_gen. cbn [flat_map pitem_recs py_norm app]. f_equal.
+    rewrite flat_map_app. f_equal. cbn [flat_map pitem_recs py_norm app]. f_equal.
+    generalize (run_sum_recs offs). intro l. induction l as [|r l IH]; [reflexivity|].
+    cbn [map flat_map pitem_recs app]. rewrite IH. reflexivity. }
+  exists dps, c1, offs. cbv zeta. split; [|split; [exact PD|exact HD]].
+  rewrite G, EX. destruct (N.eqb_spec (f_summary_start ft) 0) as [Z|NZ].
+  - apply Hss in Z. rewrite Z. reflexivity.
+  - destruct (run_sum_recs []) eqn:ER; [exfalso; apply NZ, Hss; reflexivity|reflexivity].
+Qed.
+
+Theorem go_py_summary v : exists su,
+  ns_get_summary F v = POk (match run_sum_recs [] with [] => None | _ => Some su end) /\
+  su_stats su = (if o_skip_stats eo then None else Some (py_statistics (st_wrap (stats_record s)))) /\
+  su_chunks su = map (fun ci => py_chunkindex (ci_wrap ci)) (if o_skip_ci eo then [] else w_chunk_indexes s) /\
+  su_atts su = (if o_skip_ai eo then [] else w_att_indexes s) /\
+  su_mds su = (if o_skip_mdi eo then [] else w_md_indexes s) /\
+  (ids_consistent cs ->
+   su_schemas su = w_schemas s /\ su_channels su = map (fun p => (fst p, py_channel (snd p))) (w_channels s)).
+Proof.
+  destruct (go_summary_fold v) as (dps & c1 & offs & G & PD & HD). cbv zeta in G.
+  eexists. split; [exact G|].
+  destruct (sum_recs_sel (if o_skip_rsh eo then [] else map snd (w_schemas s))
+              (if o_skip_rch eo then [] else map snd (w_channels s))
+              (if o_skip_stats eo then [] else [stats_record s])
+              (if o_skip_ci eo then [] else w_chunk_indexes s)
+              (if o_skip_ai eo then [] else w_att_indexes s)
+              (if o_skip_mdi eo then [] else w_md_indexes s) offs) as (S1 & S2 & S3 & S4).
+  rewrite su_fold_stats, su_fold_chunks, su_fold_atts, su_fold_mds. unfold run_sum_recs, state_sum_recs.
+  cbn [flat_map sel_stat sel_ci sel_ai sel_mx app]. rewrite !flat_map_app. cbn [flat_map sel_stat sel_ci sel_ai sel_mx app].
+  rewrite S1, S2, S3, S4.
+  rewrite (data_rec_sel sel_stat), (data_rec_sel sel_ci), (data_rec_sel sel_ai), (data_rec_sel sel_mx);
+    try exact PD; try (intros r Hr; destruct r; try reflexivity; destruct Hr).
+  cbn [app su_stats su_chunks su_atts su_mds empty_summary].
+  split; [destruct (o_skip_stats eo); reflexivity|]. split; [reflexivity|]. split; [reflexivity|]. split; [reflexivity|].
+  (* the tables *)
+  intro Hc.
+  set (sch' := if o_skip_rsh eo then [] else map snd (w_schemas s)).
+  set (chs' := if o_skip_rch eo then [] else map snd (w_channels s)).
+  assert (ES : filter scm (PHeader hdr :: py_expected dps ++ PDataEnd {| de_crc := c1 |}
+                           :: map py_norm (sum_recs sch' chs' (if o_skip_stats eo then [] else [stats_record s])
+                                (if o_skip_ci eo then [] else w_chunk_indexes s)
+                                (if o_skip_ai eo then [] else w_att_indexes s)
+                                (if o_skip_mdi eo then [] else w_md_indexes s) offs))
+               = map arec_out (auto_recs cs ++ map ASchema sch' ++ map AChannel chs')).
+  { cbn [filter scm]. rewrite filter_app. cbn [filter scm]. rewrite HD, sum_recs_scm, !map_app. reflexivity. }
+  destruct (EndToEnd.run_tables o lib compress hd cs Hwf Hnh Hok) as (T1 & T2 & _ & [K1 K2] & _).
+  fold w s in T1, T2, K1, K2.
+  assert (GS : forall sc, In sc (schema_calls cs) -> In (CSchema sc) cs) by (intros sc Hs; apply in_schema_calls; exact Hs).
+  assert (GC : forall c, In c (channel_calls cs) -> In (CChannel c) cs) by (intros c Hs; apply in_channel_calls; exact Hs).
+  destruct Hc as [HcC HcS].
+  split.
+  - rewrite su_fold_schemas. cbn [su_schemas empty_summary].
+    rewrite <- (fold_scm sch_step) by (intros acc r Hr; destruct r; try reflexivity; discriminate Hr).
+    rewrite ES, sch_fold_arecs, arec_schemas, fold_left_app.
+    destruct (pn_fold_fw s_id (fun x => x) (fun x => In (CSchema x) cs) (fun x y Hx Hy => HcS x y Hx Hy)
+                (schema_calls cs) []) as [F1 F2]; [intros p []|apply Forall_forall; exact GS|].
+    cbn [map] in F1. rewrite map_pair_id in F1. rewrite F1, <- T1.
+    assert (X : fold_left (fun acc x => pn_set (s_id x) x acc) sch' (map (fun p => (fst p, snd p)) (w_schemas s))
+                = map (fun p => (fst p, snd p)) (w_schemas s)).
+    { apply (pn_fold_present s_id (fun x => x) (fun x => In (CSchema x) cs) (fun x y Hx Hy => HcS x y Hx Hy)).
+      + rewrite T1. exact F2.
+      + apply Forall_forall. intros x Hx. unfold sch' in Hx. destruct (o_skip_rsh eo); [destruct Hx|].
+        exact (tab_schema_in o lib compress hd cs Hwf Hnh Hok x Hx).
+      + unfold sch'. destruct (o_skip_rsh eo); [intros x []|apply incl_refl]. }
+    rewrite map_pair_id in X. exact X.
+  - rewrite su_fold_channels. cbn [su_channels empty_summary].
+    rewrite <- (fold_scm chn_step) by (intros acc r Hr; destruct r; try reflexivity; discriminate Hr).
+    rewrite ES, chn_fold_arecs, arec_channels, fold_left_app.
+    destruct (pn_fold_fw c_id py_channel (fun x => In (CChannel x) cs) (fun x y Hx Hy => HcC x y Hx Hy)
+                (channel_calls cs) []) as [F1 F2]; [intros p []|apply Forall_forall; exact GC|].
+    cbn [map] in F1. rewrite F1, <- T2.
+    apply (pn_fold_present c_id py_channel (fun x => In (CChannel x) cs) (fun x y Hx Hy => HcC x y Hx Hy)).
+    + rewrite T2. exact F2.
+    + apply Forall_forall. intros x Hx. unfold chs' in Hx. destruct (o_skip_rch eo); [destruct Hx|].
+      exact (tab_channel_in o lib compress hd cs Hwf Hnh Hok x Hx).
+    + unfold chs'. destruct (o_skip_rch eo); [intros x []|apply incl_refl].
+Qed.
+
+(* SeekingReader.get_summary: the footer read at the end of the file, then the summary section from
+   summary_start on; only the records of the summary section are seen *)
+Theorem go_sk_summary : exists su,
+  sk_get_summary F = POk (match run_sum_recs [] with [] => None | _ => Some su end) /\
+  su_stats su = (if o_skip_stats eo then None else Some (py_statistics (st_wrap (stats_record s)))) /\
+  su_chunks su = map (fun ci => py_chunkindex (ci_wrap ci)) (if o_skip_ci eo then [] else w_chunk_indexes s) /\
+  su_atts su = (if o_skip_ai eo then [] else w_att_indexes s) /\
+  su_mds su = (if o_skip_mdi eo then [] else w_md_indexes s).
+Proof.
+  destruct go_trace_typed_run as (dps & c1 & offs & ft & H). cbv zeta in H.
+  destruct H as (E & _ & W & _ & _ & _ & _ & _ & _ & _ & HSok & Hss & Hst).
+  set (dataps := PIRec (PHeader hdr) :: dps ++ [PIRec (PDataEnd {| de_crc := c1 |})]) in *.
+  assert (Eps : go_ps hdr dps c1 (run_sum_recs offs) ft = dataps ++ map PIRec (run_sum_recs offs) ++ [PIRec (PFooter ft)]).
+  { unfold go_ps, dataps. cbn [app]. rewrite <- app_assoc. reflexivity. }
+  assert (W1 : Forall (pwf_pitem false false) (map PIRec (run_sum_recs offs) ++ [PIRec (PFooter ft)])).
+  { destruct (W false) as (body & f & _ & WF & _). rewrite Eps in WF. apply Forall_app in WF. apply WF. }
+  assert (NF : Forall (fun p => is_footer_item p = false) (map PIRec (run_sum_recs offs))).
+  { apply Forall_map. eapply Forall_impl; [|exact HSok]. intros r (_ & _ & _ & R4 & _). exact R4. }
+  pose proof (py_sk_get_summary dataps (run_sum_recs offs) ft W1 NF Hst) as G. cbv zeta in G.
+  rewrite <- Eps, <- E in G. specialize (G Hsize).
+  eexists. split.
+  - rewrite G. destruct (N.eqb_spec (f_summary_start ft) 0) as [Z|NZ].
+    + apply Hss in Z. rewrite Z. reflexivity.
+    + destruct (run_sum_recs []) eqn:ER; [exfalso; apply NZ, Hss; reflexivity|reflexivity].
+  - destruct (sum_recs_sel (if o_skip_rsh eo then [] else map snd (w_schemas s))
+                (if o_skip_rch eo then [] else map snd (w_channels s))
+                (if o_skip_stats eo then [] else [stats_record s])
+                (if o_skip_ci eo then [] else w_chunk_indexes s)
+                (if o_skip_ai eo then [] else w_att_indexes s)
+                (if o_skip_mdi eo then [] else w_md_indexes s) offs) as (S1 & S2 & S3 & S4).
+    rewrite su_fold_stats, su_fold_chunks, su_fold_atts, su_fold_mds. unfold run_sum_recs, state_sum_recs.
+    rewrite S1, S2, S3, S4. cbn [app su_stats su_chunks su_atts su_mds empty_summary].
+    repeat split. destruct (o_skip_stats eo); reflexivity.
+Qed.
+
+(* the record stream, explicitly: header, the records of the data section (chunks broken up), DataEnd, the
+   summary records of the writer's final state, footer *)
+Theorem go_py_records : exists dx c1 offs ft,
+  (forall v, stream_records F false false v limit_4g
+             = (PHeader hdr :: dx ++ PDataEnd {| de_crc := c1 |} :: map py_norm (run_sum_recs offs) ++ [PFooter ft], EStop)) /\
+  Forall data_rec dx /\
+  filter scm dx = map arec_out (auto_recs cs) /\
+  filter Py.is_att dx = map (fun ad => PAttachment (att_set (fst ad) (snd ad))) (attachments_of cs) /\
+  filter is_md dx = map (fun m => PMetadata (py_metadata m)) (metadata_of cs) /\
+  (o_crc o = false -> c1 = 0).
+Proof.
+  destruct go_trace_typed_run as (dps & c1 & offs & ft & H). cbv zeta in H.
+  destruct H as (E & _ & W & Ec & P2 & _ & HD & HA & HM & PD & _).
+  exists (py_expected dps), c1, offs, ft.
+  split; [|split; [exact PD|split; [exact HD|split; [|split]]]].
+  - intro v. rewrite E. unfold the_file. rewrite (py_stream_records v _ (W v)), go_ps_expected. reflexivity.
+  - rewrite (expected_atts true dps); [rewrite HA, map_map; reflexivity|].
+    eapply Forall_impl; [|exact P2]. intros p Hp. apply Hp.
+  - rewrite expected_mds, HM. reflexivity.
+  - intro Hc. rewrite Ec, Hc. reflexivity.
+Qed.
+
 End Run.
+
+(* ====================================================================================== *)
+(** * 5. the statements over the hypotheses bundle *)
+
+(* when the writer is not chunked the compressor is never consulted *)
+Lemma step_unchunked o lib c1 c2 flt call st : o_chunked o = false ->
+  step o lib c1 flt call st = step o lib c2 flt call st.
+Proof.
+  intro H. destruct call as [h|sc|c|m|a src|m|]; cbn [step];
+    [reflexivity|reflexivity|reflexivity| |reflexivity|reflexivity| ].
+  - unfold write_message, Writer.in_chunk. rewrite H. cbn [andb]. reflexivity.
+  - unfold close. rewrite H. reflexivity.
+Qed.
+
+Lemma run_calls_unchunked o lib c1 c2 flt cs : o_chunked o = false -> forall st acc,
+  run_calls o lib c1 flt cs st acc = run_calls o lib c2 flt cs st acc.
+Proof.
+  intro H. induction cs as [|c cs IH]; intros st acc; [reflexivity|]. cbn [run_calls].
+  rewrite (step_unchunked o lib c1 c2 flt c st H). destruct (step o lib c2 flt c st) as [s' e]. apply IH.
+Qed.
+
+Lemma W_unchunked o lib c1 c2 flt cs : o_chunked o = false -> W o lib c1 flt cs = W o lib c2 flt cs.
+Proof.
+  intro H. unfold W. cbv zeta.
+  assert (E : o_chunked (effective_opts o) = false) by (destruct (eff_flags o) as (_ & E & _); rewrite E; exact H).
+  destruct (new_writer (effective_opts o) flt) as [st [e|]]; [reflexivity|].
+  rewrite (run_calls_unchunked (effective_opts o) lib c1 c2 flt cs E). reflexivity.
+Qed.
+
+(* the hypotheses: an error-free legal run of an UNCOMPRESSED writer that writes the leading magic,
+   calls whose fields fit their wire formats, UTF-8 strings, sizes within the Python reader's limits *)
+Definition go_hyps (o : wopts) (lib : bytes) (compress : nat -> bytes -> bytes) (hd : header) (cs : list wcall) : Prop :=
+  let R := W o lib compress None (CHeader hd :: cs ++ [CClose]) in
+  (o_chunked o = true -> o_comp o = [] /\ forall i b, compress i b = b) /\
+  o_skip_magic o = false /\
+  Forall call_wf cs /\ no_header cs /\ all_ok R /\ Forall call_small cs /\
+  Forall call_utf8 cs /\
+  utf8_valid (h_profile hd) = true /\ utf8_valid (header_library (effective_opts o) lib hd) = true /\
+  blen (file_of R) < two63 /\
+  Forall item_small (rev (w_trace (r_final R))).
+
+Definition idc (n : nat) (b : bytes) : bytes := b.
+
+(* the run is the run of a writer whose compressor is (extensionally) the identity *)
+Lemma go_hyps_id o lib compress hd cs : go_hyps o lib compress hd cs ->
+  exists c', (forall i b, c' i b = b) /\
+    W o lib compress None (CHeader hd :: cs ++ [CClose]) = W o lib c' None (CHeader hd :: cs ++ [CClose]) /\
+    (o_chunked o = true -> o_comp o = []).
+Proof.
+  intros (H1 & _). destruct (o_chunked o) eqn:E.
+  - destruct (H1 eq_refl) as [Hc Hi]. exists compress. split; [exact Hi|]. split; [reflexivity|intros _; exact Hc].
+  - exists idc. split; [reflexivity|]. split; [apply W_unchunked; exact E|discriminate].
+Qed.
+
+Ltac go_reduce H :=
+  let c' := fresh "c'" in let Hi := fresh "Hi" in let EW := fresh "EW" in let Hunc := fresh "Hunc" in
+  destruct (go_hyps_id _ _ _ _ _ H) as (c' & Hi & EW & Hunc);
+  destruct H as (_ & Hm & Hwf & Hnh & Hok & Hsm & Hutf & Hu1 & Hu2 & Hsz & Hit);
+  cbv zeta in Hok, Hsz, Hit; rewrite EW in Hok, Hsz, Hit; cbv zeta; rewrite ?EW.
+
+(* 1. the file is the rendering of a typed description the Python reader accepts, with and without
+      CRC validation; item by item it is the writer's trace between the two magics *)
+Theorem go_trace_typed o lib compress hd cs : go_hyps o lib compress hd cs ->
+  let R := W o lib compress None (CHeader hd :: cs ++ [CClose]) in
+  exists ps,
+    file_of R = magic ++ py_render ps ++ magic /\
+    map render_item (to_items ps) = map render_item (removelast (tl (rev (w_trace (r_final R))))) /\
+    pwf_file true false ps /\ pwf_file false false ps.
+Proof.
+  intro H. go_reduce H.
+  destruct (go_trace_typed_run o lib c' hd cs Hwf Hnh Hok Hsm Hi Hunc Hm Hutf (conj Hu1 Hu2) Hsz Hit)
+    as (dps & c1 & offs & ft & G). cbv zeta in G. destruct G as (E & EB & W0 & _).
+  eexists. split; [exact E|]. split; [|split; apply W0].
+  rewrite <- EB. unfold to_items. rewrite map_map. apply map_ext. intro p. symmetry. apply pitem_bytes_go.
+Qed.
+
+(* 2. StreamReader(file, validate_crcs=...).records *)
+Theorem go_to_python_stream o lib compress hd cs : go_hyps o lib compress hd cs ->
+  let R := W o lib compress None (CHeader hd :: cs ++ [CClose]) in
+  exists ps,
+    file_of R = magic ++ py_render ps ++ magic /\
+    pwf_file true false ps /\ pwf_file false false ps /\
+    stream_records (file_of R) false false true limit_4g = (py_expected ps, EStop) /\
+    stream_records (file_of R) false false false limit_4g = (py_expected ps, EStop).
+Proof.
+  intro H. go_reduce H.
+  destruct (go_trace_typed_run o lib c' hd cs Hwf Hnh Hok Hsm Hi Hunc Hm Hutf (conj Hu1 Hu2) Hsz Hit)
+    as (dps & c1 & offs & ft & G). cbv zeta in G. destruct G as (E & _ & W0 & _).
+  eexists. split; [exact E|]. split; [apply W0|]. split; [apply W0|].
+  rewrite E. split; apply py_stream_records, W0.
+Qed.
+
+(* 2 (a)-(e). NonSeekingReader, CRC validation on or off *)
+Theorem go_to_python_content o lib compress hd cs : go_hyps o lib compress hd cs -> ids_consistent cs ->
+  let R := W o lib compress None (CHeader hd :: cs ++ [CClose]) in
+  forall validate,
+  (* (a) get_header: the profile, and the library string the writer computed *)
+  ns_get_header (file_of R) validate
+    = POk {| h_profile := h_profile hd; h_library := header_library (effective_opts o) lib hd |} /\
+  (* (b) iter_attachments: the attachment calls in order, all fields, the data of the source *)
+  ns_iter Py.is_att (file_of R) validate
+    = (map (fun ad => PAttachment (att_set (fst ad) (snd ad))) (attachments_of cs), EStop) /\
+  (* (c) iter_metadata: the metadata calls in order *)
+  ns_iter is_md (file_of R) validate = (map (fun m => PMetadata (py_metadata m)) (metadata_of cs), EStop) /\
+  (* (d) iter_messages in file order: the message calls in call order, each with its channel and schema *)
+  (forall flt reverse, ns_iter_messages (file_of R) validate flt false reverse = (go_msgs cs flt, EStop)) /\
+  (* (e) in log-time order *)
+  (forall flt reverse, ns_iter_messages (file_of R) validate flt true reverse = (py_sorted reverse (go_msgs cs flt), EStop)).
+Proof.
+  intros H Hc. go_reduce H. intro v.
+  split; [exact (go_py_header o lib c' hd cs Hwf Hnh Hok Hsm Hi Hunc Hm Hutf (conj Hu1 Hu2) Hsz Hit v)|].
+  split; [exact (go_py_attachments o lib c' hd cs Hwf Hnh Hok Hsm Hi Hunc Hm Hutf (conj Hu1 Hu2) Hsz Hit v)|].
+  split; [exact (go_py_metadata o lib c' hd cs Hwf Hnh Hok Hsm Hi Hunc Hm Hutf (conj Hu1 Hu2) Hsz Hit v)|].
+  split; intros flt reverse.
+  - exact (go_py_messages o lib c' hd cs Hwf Hnh Hok Hsm Hi Hunc Hm Hutf (conj Hu1 Hu2) Hsz Hit Hc v flt reverse).
+  - exact (go_py_messages_log_order o lib c' hd cs Hwf Hnh Hok Hsm Hi Hunc Hm Hutf (conj Hu1 Hu2) Hsz Hit Hc v flt reverse).
+Qed.
+
+(* 3. get_summary of the NonSeekingReader: None when the writer wrote no summary section, otherwise the
+      statistics record and the index lists of the writer's final state (values reduced to their wire
+      widths, maps as Python builds them) *)
+Theorem go_to_python_summary o lib compress hd cs : go_hyps o lib compress hd cs ->
+  let R := W o lib compress None (CHeader hd :: cs ++ [CClose]) in
+  let s := r_final R in
+  let eo := effective_opts o in
+  forall validate, exists su,
+    ns_get_summary (file_of R) validate = POk (match state_sum_recs eo s [] with [] => None | _ => Some su end) /\
+    su_stats su = (if o_skip_stats eo then None else Some (py_statistics (st_wrap (stats_record s)))) /\
+    su_chunks su = map (fun ci => py_chunkindex (ci_wrap ci)) (if o_skip_ci eo then [] else w_chunk_indexes s) /\
+    su_atts su = (if o_skip_ai eo then [] else w_att_indexes s) /\
+    su_mds su = (if o_skip_mdi eo then [] else w_md_indexes s) /\
+    (ids_consistent cs ->
+     su_schemas su = w_schemas s /\ su_channels su = map (fun p => (fst p, py_channel (snd p))) (w_channels s)).
+Proof.
+  intro H. go_reduce H. intro v.
+  exact (go_py_summary o lib c' hd cs Hwf Hnh Hok Hsm Hi Hunc Hm Hutf (conj Hu1 Hu2) Hsz Hit v).
+Qed.
+
+Lemma sum_recs_stats_nonempty a b x c d e f g : sum_recs a b (x :: c) d e f g <> [].
+Proof. unfold sum_recs. destruct a; [destruct b; discriminate|discriminate]. Qed.
+
+(* the statistics Python reports are the statistics record of the writer's final state, which carries the
+   true aggregates of the calls (C08) *)
+Theorem go_to_python_statistics o lib compress hd cs : go_hyps o lib compress hd cs ->
+  let R := W o lib compress None (CHeader hd :: cs ++ [CClose]) in
+  let s := r_final R in
+  o_skip_stats o = false -> wf_statistics (stats_record s) ->
+  forall validate, exists su,
+    ns_get_summary (file_of R) validate = POk (Some su) /\
+    su_stats su = Some (stats_record s) /\
+    record_correct (CHeader hd :: cs ++ [CClose]) (N.of_nat (length (w_chunk_indexes s))) (stats_record s).
+Proof.
+  intros H R s Hst Hwfst v.
+  assert (RC : record_correct (CHeader hd :: cs ++ [CClose]) (N.of_nat (length (w_chunk_indexes s))) (stats_record s)).
+  { destruct H as (_ & _ & _ & _ & [Hn Hc] & _).
+    exact (proj2 (C08_statistics_record_proof o lib compress None (CHeader hd :: cs) Hn Hc Hst)). }
+  destruct (go_to_python_summary o lib compress hd cs H v) as (su & E1 & E2 & _).
+  fold R s in E1, E2.
+  assert (Es : o_skip_stats (effective_opts o) = false) by (destruct (eff_flags o) as (_ & _ & _ & _ & E); rewrite E; exact Hst).
+  rewrite Es in E2. exists su. split; [|split; [|exact RC]].
+  - rewrite E1. unfold state_sum_recs. rewrite Es.
+    destruct (sum_recs _ _ [stats_record s] _ _ _ []) eqn:EE; [|reflexivity].
+    exfalso. exact (sum_recs_stats_nonempty _ _ _ _ _ _ _ _ EE).
+  - rewrite E2, st_wrap_id by exact Hwfst. rewrite py_statistics_nodup; [reflexivity|].
+    destruct RC as (_ & _ & _ & _ & _ & _ & _ & _ & _ & ND). exact ND.
+Qed.
+
+(* the record stream in terms of the calls and the writer's final state *)
+Theorem go_to_python_records o lib compress hd cs : go_hyps o lib compress hd cs ->
+  let R := W o lib compress None (CHeader hd :: cs ++ [CClose]) in
+  let s := r_final R in
+  let eo := effective_opts o in
+  let hdr := {| h_profile := h_profile hd; h_library := header_library eo lib hd |} in
+  exists dx c1 offs ft,
+    (forall validate, stream_records (file_of R) false false validate limit_4g
+       = (PHeader hdr :: dx ++ PDataEnd {| de_crc := c1 |} :: map py_norm (state_sum_recs eo s offs) ++ [PFooter ft], EStop)) /\
+    Forall data_rec dx /\
+    filter scm dx = map arec_out (auto_recs cs) /\
+    filter Py.is_att dx = map (fun ad => PAttachment (att_set (fst ad) (snd ad))) (attachments_of cs) /\
+    filter is_md dx = map (fun m => PMetadata (py_metadata m)) (metadata_of cs) /\
+    (o_crc o = false -> c1 = 0).
+Proof.
+  intro H. go_reduce H.
+  exact (go_py_records o lib c' hd cs Hwf Hnh Hok Hsm Hi Hunc Hm Hutf (conj Hu1 Hu2) Hsz Hit).
+Qed.
+
+(* SeekingReader.get_summary *)
+Theorem go_to_python_seeking_summary o lib compress hd cs : go_hyps o lib compress hd cs ->
+  let R := W o lib compress None (CHeader hd :: cs ++ [CClose]) in
+  let s := r_final R in
+  let eo := effective_opts o in
+  exists su,
+    sk_get_summary (file_of R) = POk (match state_sum_recs eo s [] with [] => None | _ => Some su end) /\
+    su_stats su = (if o_skip_stats eo then None else Some (py_statistics (st_wrap (stats_record s)))) /\
+    su_chunks su = map (fun ci => py_chunkindex (ci_wrap ci)) (if o_skip_ci eo then [] else w_chunk_indexes s) /\
+    su_atts su = (if o_skip_ai eo then [] else w_att_indexes s) /\
+    su_mds su = (if o_skip_mdi eo then [] else w_md_indexes s).
+Proof.
+  intro H. go_reduce H.
+  exact (go_sk_summary o lib c' hd cs Hwf Hnh Hok Hsm Hi Hunc Hm Hutf (conj Hu1 Hu2) Hsz Hit).
+Qed.
+
+(* ====================================================================================== *)
+(** * 6. deciding the hypotheses; non-vacuity *)
+
+Definition kvs_utf8b (m : kvs) : bool := forallb (fun kv => utf8_valid (fst kv) && utf8_valid (snd kv)) m.
+Definition call_utf8b (c : wcall) : bool :=
+  match c with
+  | CHeader h => utf8_valid (h_profile h) && utf8_valid (h_library h)
+  | CSchema s => utf8_valid (s_name s) && utf8_valid (s_encoding s)
+  | CChannel c => utf8_valid (c_topic c) && utf8_valid (c_menc c) && kvs_utf8b (c_meta c)
+  | CMessage _ => true
+  | CAttachment a _ => utf8_valid (a_name a) && utf8_valid (a_media a)
+  | CMetadata m => utf8_valid (md_name m) && kvs_utf8b (md_meta m)
+  | CClose => true
+  end.
+
+Lemma kvs_utf8b_ok m : kvs_utf8b m = true -> kvs_utf8 m.
+Proof.
+  unfold kvs_utf8b, kvs_utf8. intro H. apply Forall_forall. intros kv Hkv. rewrite forallb_forall in H.
+  specialize (H kv Hkv). apply andb_prop in H. exact H.
+Qed.
+Lemma call_utf8b_ok c : call_utf8b c = true -> call_utf8 c.
+Proof.
+  destruct c as [h|sc|c|m|a src|m|]; cbn [call_utf8b call_utf8]; intro H; try exact I;
+    repeat (apply andb_prop in H; destruct H as [H ?]); repeat split; try assumption; apply kvs_utf8b_ok; assumption.
+Qed.
+
+Definition item_smallb (it : item) : bool := blen (render_item it) <=? two32.
+Lemma item_smallb_ok it : item_smallb it = true -> item_small it.
+Proof. apply N.leb_le. Qed.
+
+Definition no_headerb (cs : list wcall) : bool := forallb (fun c => negb (is_hdr c)) cs.
+Lemma no_headerb_ok cs : no_headerb cs = true -> no_header cs.
+Proof.
+  intro H. apply (forallb_Forall' _ _ _ (fun c Hc => proj1 (negb_true_iff _) Hc) H).
+Qed.
+
+(* everything decidable in go_hyps, for the identity compressor *)
+Definition go_checks (o : wopts) (lib : bytes) (hd : header) (cs : list wcall) : bool :=
+  let R := W o lib idc None (CHeader hd :: cs ++ [CClose]) in
+  (negb (o_chunked o) || bytes_eqb (o_comp o) []) && negb (o_skip_magic o) &&
+  forallb call_wfb cs && no_headerb cs &&
+  match r_new R with None => true | Some _ => false end && all_okb (r_calls R) &&
+  forallb call_smallb cs && forallb call_utf8b cs &&
+  utf8_valid (h_profile hd) && utf8_valid (header_library (effective_opts o) lib hd) &&
+  (blen (file_of R) <? two63) && forallb item_smallb (rev (w_trace (r_final R))).
+
+Lemma go_checks_ok o lib hd cs : go_checks o lib hd cs = true -> go_hyps o lib idc hd cs.
+Proof.
+  unfold go_checks. cbv zeta. intro H.
+  repeat (apply andb_prop in H; let X := fresh "X" in destruct H as [H X]).
+  unfold go_hyps. cbv zeta.
+  split.
+  { intro Hc. rewrite Hc in H. cbn [negb orb] in H. split; [|reflexivity].
+    destruct (o_comp o); [reflexivity|discriminate H]. }
+  split; [apply negb_true_iff; assumption|].
+  split; [exact (forallb_Forall' _ _ _ call_wfb_ok ltac:(eassumption))|].
+  split; [apply no_headerb_ok; assumption|].
+  split.
+  { split; [destruct (r_new _); [discriminate|reflexivity]|]. apply all_okb_ok. assumption. }
+  split; [exact (forallb_Forall' _ _ _ call_smallb_ok ltac:(eassumption))|].
+  split; [exact (forallb_Forall' _ _ _ call_utf8b_ok ltac:(eassumption))|].
+  split; [assumption|]. split; [assumption|].
+  split; [apply N.ltb_lt; assumption|].
+  exact (forallb_Forall' _ _ _ item_smallb_ok ltac:(eassumption)).
+Qed.
+
+(* ---------- the example workloads ---------- *)
+Definition gx_o (chunked crc : bool) : wopts :=
+  {| o_crc := crc; o_chunked := chunked; o_chunksize := 40; o_comp := []; o_custom := false;
+     o_skip_mi := false; o_skip_stats := false; o_skip_rsh := false; o_skip_rch := false;
+     o_skip_ai := false; o_skip_mdi := false; o_skip_ci := false; o_skip_so := false;
+     o_override_lib := false; o_skip_magic := false |}.
+
+(* workload of properties/C02_full.v (EndToEnd.ex_cs): a schema, two channels (one with metadata, one without
+   schema), four messages, an attachment from a two-fragment source, a metadata record *)
+Definition gx_lib : bytes := [x6c].
+Definition gx_hd : header := EndToEnd.ex_hd.
+Definition gx_cs : list wcall := EndToEnd.ex_cs.
+
+(* workload of properties/C01.v (WriterFactsB.ex_cs_pre): a schema, a channel, three messages, an attachment,
+   a metadata record *)
+Definition gy_lib : bytes := WriterFactsB.ex_lib.
+Definition gy_hd : header := {| h_profile := []; h_library := [] |}.
+Definition gy_cs : list wcall := tl WriterFactsB.ex_cs_pre.
+
+Lemma gy_cs_eq : WriterFactsB.ex_cs_pre = CHeader gy_hd :: gy_cs.
+Proof. reflexivity. Qed.
+
+Lemma gx_consistent : ids_consistent gx_cs.
+Proof. exact ex_cs_consistent. Qed.
+
+Lemma gy_consistent : ids_consistent gy_cs.
+Proof.
+  split.
+  - intros c c' H1 H2 E0. unfold gy_cs, WriterFactsB.ex_cs_pre in H1, H2. cbn [tl In] in H1, H2.
+    repeat (destruct H1 as [H1|H1]; try discriminate); try contradiction;
+    repeat (destruct H2 as [H2|H2]; try discriminate); try contradiction;
+    injection H1 as <-; injection H2 as <-; reflexivity.
+  - intros sc sc' H1 H2 E0. unfold gy_cs, WriterFactsB.ex_cs_pre in H1, H2. cbn [tl In] in H1, H2.
+    repeat (destruct H1 as [H1|H1]; try discriminate); try contradiction;
+    repeat (destruct H2 as [H2|H2]; try discriminate); try contradiction;
+    injection H1 as <-; injection H2 as <-; reflexivity.
+Qed.
+
+Example gx_hyps chunked crc : go_hyps (gx_o chunked crc) gx_lib idc gx_hd gx_cs.
+Proof. apply go_checks_ok. destruct chunked, crc; vm_compute; reflexivity. Qed.
+
+Example gy_hyps chunked crc : go_hyps (gx_o chunked crc) gy_lib idc gy_hd gy_cs.
+Proof. apply go_checks_ok. destruct chunked, crc; vm_compute; reflexivity. Qed.
+
+(* what a direct evaluation of the Python model on the written file is compared with: every right-hand side
+   below is computed from the calls and the writer's final state, none from the file *)
+Definition flt_all : mfilter := {| mf_topics := None; mf_start := None; mf_end := None |}.
+
+Definition go_example_spec (o : wopts) (lib : bytes) (hd : header) (cs : list wcall) (validate : bool) : Prop :=
+  let R := W o lib idc None (CHeader hd :: cs ++ [CClose]) in
+  let F := file_of R in
+  let s := r_final R in
+  let hdr := {| h_profile := h_profile hd; h_library := header_library (effective_opts o) lib hd |} in
+  let recs := fst (stream_records F false false validate limit_4g) in
+  snd (stream_records F false false validate limit_4g) = EStop /\
+  firstn 1 recs = [PHeader hdr] /\
+  filter scm recs = map arec_out (auto_recs cs ++ map ASchema (map snd (w_schemas s)) ++ map AChannel (map snd (w_channels s))) /\
+  filter Py.is_att recs = map (fun ad => PAttachment (att_set (fst ad) (snd ad))) (attachments_of cs) /\
+  filter is_md recs = map (fun m => PMetadata (py_metadata m)) (metadata_of cs) /\
+  flat_map sel_stat recs = [stats_record s] /\
+  flat_map sel_ci recs = w_chunk_indexes s /\ flat_map sel_ai recs = w_att_indexes s /\ flat_map sel_mx recs = w_md_indexes s /\
+  match last recs (PHeader hdr) with
+  | PFooter ft =>
+    filter PyReadFacts.is_dataend recs
+    = [PDataEnd {| de_crc := if o_crc o then crc32 (firstn (N.to_nat (f_summary_start ft) - 13) F) else 0 |}]
+  | _ => False
+  end /\
+  ns_get_header F validate = POk hdr /\
+  ns_iter_messages F validate flt_all false false = (go_msgs cs flt_all, EStop) /\
+  ns_iter_messages F validate flt_all true false = (py_sorted false (go_msgs cs flt_all), EStop) /\
+  ns_iter_messages F validate flt_all true true = (py_sorted true (go_msgs cs flt_all), EStop) /\
+  length (go_msgs cs flt_all) = length (messages_of cs) /\
+  match ns_get_summary F validate with
+  | POk (Some su) =>
+    su_stats su = Some (stats_record s) /\ su_chunks su = w_chunk_indexes s /\
+    su_atts su = w_att_indexes s /\ su_mds su = w_md_indexes s /\
+    su_schemas su = w_schemas s /\ su_channels su = map (fun p => (fst p, py_channel (snd p))) (w_channels s)
+  | _ => False
+  end /\
+  match sk_get_summary F with
+  | POk (Some su) =>
+    su_stats su = Some (stats_record s) /\ su_chunks su = w_chunk_indexes s /\
+    su_atts su = w_att_indexes s /\ su_mds su = w_md_indexes s /\
+    su_schemas su = w_schemas s /\ su_channels su = map (fun p => (fst p, py_channel (snd p))) (w_channels s)
+  | _ => False
+  end.
+
+Example gx_example chunked crc validate : go_example_spec (gx_o chunked crc) gx_lib gx_hd gx_cs validate.
+Proof. destruct chunked, crc, validate; vm_compute; repeat split. Qed.
+
+Example gy_example chunked crc validate : go_example_spec (gx_o chunked crc) gy_lib gy_hd gy_cs validate.
+Proof. destruct chunked, crc, validate; vm_compute; repeat split. Qed.
+
+(* a writer that is not chunked may be given any compressor *)
+Example gx_hyps_any_compressor crc : go_hyps (gx_o false crc) gx_lib (fun _ b => xff :: b) gx_hd gx_cs.
+Proof.
+  pose proof (gx_hyps false crc) as H. unfold go_hyps in *. cbv zeta in *.
+  rewrite (W_unchunked (gx_o false crc) gx_lib (fun _ b => xff :: b) idc None _ eq_refl).
+  destruct H as (_ & H). split; [discriminate|exact H].
+Qed.
+
+(* ---------- the hypotheses are needed ---------- *)
+(* a schema name that is not valid UTF-8: every other hypothesis holds, Python raises UnicodeDecodeError
+   after the header *)
+Definition gz_bad_cs : list wcall := [CSchema {| s_id := 1; s_name := [xff]; s_encoding := []; s_data := [] |}].
+Example gz_utf8_needed :
+  let R := W (gx_o false true) gx_lib idc None (CHeader gx_hd :: gz_bad_cs ++ [CClose]) in
+  forallb call_wfb gz_bad_cs = true /\ forallb call_smallb gz_bad_cs = true /\ r_new R = None /\
+  all_okb (r_calls R) = true /\ forallb item_smallb (rev (w_trace (r_final R))) = true /\
+  forallb call_utf8b gz_bad_cs = false /\
+  stream_records (file_of R) false false true limit_4g
+    = ([PHeader {| h_profile := []; h_library := gx_lib |}], ERaise PUnicode).
+Proof. vm_compute. repeat split. Qed.
+
+(* a channel id registered twice with different content: go_hyps holds, ids_consistent does not; Go writes both
+   channel records, Python resolves the second message through the second registration, go_msgs (like the
+   summary section of the file) through the first *)
+Definition gz_c1 : channel := {| c_id := 1; c_schema := 0; c_topic := [x74]; c_menc := []; c_meta := [] |}.
+Definition gz_c1' : channel := {| c_id := 1; c_schema := 0; c_topic := [x75]; c_menc := []; c_meta := [] |}.
+Definition gz_m (n : N) : message := {| m_chan := 1; m_seq := n; m_log := n; m_pub := n; m_data := [] |}.
+Definition gz_re_cs : list wcall := [CChannel gz_c1; CMessage (gz_m 1); CChannel gz_c1'; CMessage (gz_m 2)].
+Example gz_consistency_needed :
+  let R := W (gx_o false true) gx_lib idc None (CHeader gx_hd :: gz_re_cs ++ [CClose]) in
+  go_hyps (gx_o false true) gx_lib idc gx_hd gz_re_cs /\ ~ ids_consistent gz_re_cs /\
+  map (fun t => c_topic (snd (fst t))) (fst (ns_iter_messages (file_of R) true flt_all false false)) = [[x74]; [x75]] /\
+  map (fun t => c_topic (snd (fst t))) (go_msgs gz_re_cs flt_all) = [[x74]; [x74]].
+Proof.
+  cbv zeta. split; [apply go_checks_ok; vm_compute; reflexivity|]. split; [|vm_compute; split; reflexivity].
+  intros [H _]. specialize (H gz_c1 gz_c1'). cbn in H. assert (E : gz_c1 = gz_c1') by (apply H; auto). discriminate E.
+Qed.
+
+(* without the leading magic the Python readers fail at once *)
+Definition gz_o_nomagic : wopts :=
+  {| o_crc := true; o_chunked := false; o_chunksize := 40; o_comp := []; o_custom := false;
+     o_skip_mi := false; o_skip_stats := false; o_skip_rsh := false; o_skip_rch := false;
+     o_skip_ai := false; o_skip_mdi := false; o_skip_ci := false; o_skip_so := false;
+     o_override_lib := false; o_skip_magic := true |}.
+Example gz_magic_needed :
+  let R := W gz_o_nomagic gx_lib idc None (CHeader gx_hd :: gx_cs ++ [CClose]) in
+  r_new R = None /\ all_okb (r_calls R) = true /\
+  ns_get_header (file_of R) true = PRaise PInvalidMagic /\
+  stream_records (file_of R) false false true limit_4g = ([], ERaise PInvalidMagic).
+Proof. vm_compute. repeat split. Qed.
+
+(* a file of at most 4 GiB has no record longer than 2^32 bytes *)
+Lemma items_small_of_file o lib compress hd cs :
+  let R := W o lib compress None (CHeader hd :: cs ++ [CClose]) in
+  Forall call_wf cs -> all_ok R -> blen (file_of R) <= two32 ->
+  Forall item_small (rev (w_trace (r_final R))).
+Proof.
+  intros R Hwf Hok Hsz. subst R. apply Forall_forall. intros it Hit. unfold item_small.
+  pose proof (render_item_le it _ Hit) as L.
+  rewrite <- (run_file_is_trace o lib compress hd cs Hwf Hok) in L. lia.
+Qed.
